@@ -11,7 +11,7 @@ from ..worlds import ImplWorld, RefWorld, facts_impl, facts_ref
 
 ID = 'C14'
 LEVEL = 'model_checking'
-RULE = ('(a) every history of depth <= D over the event menu {start (and take the first answer of) an enumeration of '
+RULE = ('(seventh alphabet: the facts enumerated through yp.match_dynamic, the API function loaded scripts and hand-written predicates use, instead of a query) ' '(a) every history of depth <= D over the event menu {start (and take the first answer of) an enumeration of '
         'p(X) / retract(p(X)) / retract(p(a)) in a free slot (<= 2 suspended at once); step slot 1|2; close slot 1|2; '
         'asserta(p(c)); assertz(p(c)); retract(p(b)) once; retractall(p(a))} from the initial stores [] [a] [a,b] '
         '[a,b,a] (and, over a 10-event alphabet with the partially bound patterns retract(p(f(X))) / retractall(p(f(_))) and clear(), from the store [f(a),b,f(b),f(a)]; and over an 11-event alphabet with the ground call p(a) and asserta/assertz of p(a) from [a,b,a]; over a 7-event alphabet with retractall(p(_)) (the predicate is emptied and refilled during a suspension) to depth D+1 from [a,b,a]; and over the 11 base events to depth D-1 from the stores [a, _, b] and [a, [x|_], b] whose middle fact contains a variable; the 7-event alphabet includes a complete retract on another predicate), replayed on a fresh engine through the Python API with the reference model (logical update view: '
@@ -53,6 +53,11 @@ EMPTY_EVENTS = ['start:rX', 'step:1', 'assertz', 'retractall_all', 'retract_c', 
 GOALVAR_EVENTS = ['startv:rX', 'startv:ra', 'step:1', 'step:2', 'close:1', 'release:1', 'rebind:1', 'assertz', 'retract_b']
 
 
+# a seventh alphabet: the facts enumerated through match_dynamic (the API function that loaded scripts and
+# hand-written Python predicates use for it) instead of through a query
+MATCH_EVENTS = ['startm:q', 'startm:qa', 'step:1', 'step:2', 'close:1', 'asserta', 'asserta_a', 'assertz', 'retract_b', 'retractall_a']
+
+
 # a sixth alphabet on a LARGE store (a, b, a, 300 other facts, b): whatever an engine does differently for big
 # tables or big numbers, the logical update view is the same; drain takes all remaining answers of a suspended goal
 BIG_EVENTS = ['start:q', 'start:rX', 'start:ra', 'step:1', 'drain:1', 'asserta', 'assertz', 'retract_b', 'retractall_a']
@@ -78,7 +83,7 @@ class Run:
 
     def enabled(self, ev):
         kind, _, arg = ev.partition(':')
-        if kind in ('start', 'startv'):
+        if kind in ('start', 'startv', 'startm'):
             return self.slots[1] is None or self.slots[2] is None
         if kind in ('step', 'close', 'drain'):
             return self.slots[int(arg)] is not None
@@ -89,14 +94,14 @@ class Run:
     def do(self, ev):
         w = self.w
         kind, _, arg = ev.partition(':')
-        if kind in ('start', 'startv'):
+        if kind in ('start', 'startv', 'startm'):
             k = 1 if self.slots[1] is None else 2
             self.nvar += 1
             v = V('E%d' % self.nvar)
             goal = STARTS[arg]
             # rename X to a variable private to this enumeration
             goal = _subst(goal, v)
-            h = w.start(goal) if kind == 'start' else w.start_via_variable(goal)
+            h = w.start(goal) if kind == 'start' else w.start_match(goal) if kind == 'startm' else w.start_via_variable(goal)
             self.viavar.discard(k)
             if w.step(h):
                 self.slots[k] = (h, v, arg)
@@ -301,6 +306,7 @@ def run_shard(spec):
         work += [(3 * 10 ** 7 + idx, hist, 5) for idx, hist in enumerate(itertools.product(EVENTS, repeat=depth - 1)) if idx % n == k]
         work += [(5 * 10 ** 7 + idx, hist, 6) for idx, hist in enumerate(itertools.product(EVENTS, repeat=depth - 1)) if idx % n == k]
         work += [(6 * 10 ** 7 + idx, hist, 3) for idx, hist in enumerate(itertools.product(GOALVAR_EVENTS, repeat=depth - 1)) if idx % n == k]
+        work += [(9 * 10 ** 7 + idx, hist, 3) for idx, hist in enumerate(itertools.product(MATCH_EVENTS, repeat=depth - 1)) if idx % n == k]
         work += [(7 * 10 ** 7 + idx, hist, BIG_STORE) for idx, hist in enumerate(itertools.product(BIG_EVENTS, repeat=depth - 1)) if idx % n == k]
         for idx, hist, ii in work:
             init = INITIAL[ii]
